@@ -446,3 +446,36 @@ func byteOrderSort(call *ssa.Call) (field string, ok bool) {
 	}
 	return "", false
 }
+
+// reachFromEntry: with atoms valued by av (unvalued conditions explored both
+// ways), is target's block reached from the function entry on some path / on every path?
+func reachFromEntry(target ssa.Instruction, o exprOpts, av atomFn) (some, all bool) {
+	f := target.Parent()
+	tb := target.Block()
+	memo := map[ssa.Value]string{}
+	mk := func() intEnv {
+		env := intEnv{params: map[ssa.Value]int64{}, lens: map[ssa.Value]int64{}, unknown: map[ssa.Value]bool{}, cells: map[ssa.Value]int64{}, skipLoops: true}
+		env.opaque = func(v ssa.Value) (int64, bool) {
+			if !isIntegerT(v.Type()) && !isBoolT(v.Type()) {
+				return 0, false
+			}
+			if _, isC := v.(*ssa.Const); isC {
+				return 0, false
+			}
+			s, have := memo[v]
+			if !have {
+				s = abbr(exprStr(v, o))
+				memo[v] = s
+			}
+			return av(s)
+		}
+		n := 4000
+		env.fuel = &n
+		return env
+	}
+	goal := func(b *ssa.BasicBlock) bool { return b == tb }
+	stop := func(b *ssa.BasicBlock) bool { return false }
+	some = reachQ(f.Blocks[0], nil, mk(), goal, stop, 0, false)
+	all = some && reachQ(f.Blocks[0], nil, mk(), goal, stop, 0, true)
+	return
+}
